@@ -134,6 +134,13 @@ def run_case(ctx, d):
             return _msgcarrier(ctx, d, pgpy)
         key, subj, sig, sigbytes, refsubj, sm, keep = base_triple(d)
         r0, _ = sigwork.pgpy_verify(key, subj, sig)
+        if r0 == 'true' and ref_verdict(sigbytes, sm, refsubj) != 'valid' and d['m'] == 'subject':
+            # PGPy accepts a triple the reference does not (a conformance matter for C02).  Soundness can still be probed without the
+            # reference: mutants that change the signed subject beyond doubt (document octets, user id octets, key material that differs
+            # after canonical re-encoding) must stop verifying whatever PGPy hashes.
+            ctx.count('baseline_pgpy_only')
+            _subject(ctx, d, pgpy, key, subj, sig, sigbytes, refsubj, sm, pgpy_only=True)
+            return
         if r0 != 'true' or ref_verdict(sigbytes, sm, refsubj) != 'valid':
             ctx.count('baseline_false')   # judged by C02, not here
             return
@@ -262,7 +269,7 @@ def _mut_bytes(r, b, n):
     return [(n_, m) for n_, m in out if m != b]
 
 
-def _subject(ctx, d, pgpy, key, subj, sig, sigbytes, refsubj, sm):
+def _subject(ctx, d, pgpy, key, subj, sig, sigbytes, refsubj, sm, pgpy_only=False):
     r = ctx.rng('subject', d)
     if 'doc' in refsubj:
         doc = refsubj['doc']
@@ -278,7 +285,11 @@ def _subject(ctx, d, pgpy, key, subj, sig, sigbytes, refsubj, sm):
                 ms = m
             ctx.count('subject_mutants')
             res, _ = sigwork.pgpy_verify(key, ms, sig)
-            judge(ctx, ref_verdict(sigbytes, sm, rs), res, 'document-' + name.rstrip('0123456789'), d, {'doc': hx(m)[:200]})
+            klass = ref_verdict(sigbytes, sm, rs)
+            if pgpy_only:
+                styp = wire.split(sigbytes)[0].body[1]
+                klass = 'invalid' if styp == 0x00 else 'valid'
+            judge(ctx, klass, res, 'document-' + name.rstrip('0123456789'), d, {'doc': hx(m)[:200]})
         return
     if not refsubj:
         return   # no subject: covered by confusion
@@ -348,6 +359,12 @@ def _subject(ctx, d, pgpy, key, subj, sig, sigbytes, refsubj, sm):
                         s2 = k2
                     rs = dict(refsubj, primary=RK.canonical_pubbody(mb))
                 klass = ref_verdict(sigbytes, sm, rs)
+                if pgpy_only:
+                    # semantic beyond doubt: user id / attribute octets changed, or key material that differs after canonical re-encoding
+                    if fname in ('uid', 'ua'):
+                        klass = 'invalid'
+                    else:
+                        klass = 'invalid' if RK.canonical_pubbody(mb) != RK.canonical_pubbody(body) else 'valid'
             except (wire.Malformed, Stalled, Exception) as e:
                 ctx.count('mutant_unloadable')
                 continue
